@@ -37,38 +37,72 @@ func (r *rs) psyncReply() {
 	}
 	_, sb := pat.Stmt("_x, _err = redis.AsString(_r, nil)").Find(info, fn.Decl.Body, db)
 	var xb pat.Binds
-	// the reply line split into fields; the line may have been case-folded as a whole first
-	// (strings.ToLower(string(x))): then every field, the run id included, is folded
+	// The reply line split into fields: strings.Split(line, " ") / SplitN / strings.Fields(line), where
+	// line is the reply through pure string transformers. Conversions and trimming are transparent; a
+	// case-changing transformer (ToLower/ToUpper/Title...) is remembered: it folds every field, the
+	// announced run id included.
+	peelText := func(e ast.Expr) (ast.Expr, string) {
+		fold := ""
+		e = ast.Unparen(flow.Resolve(info, fn.Decl.Body, ast.Unparen(e)))
+		for {
+			call, ok := e.(*ast.CallExpr)
+			if !ok || len(call.Args) == 0 {
+				return e, fold
+			}
+			f := core.CalleeFunc(info, call)
+			switch {
+			case f != nil && f.Pkg() != nil && (f.Pkg().Path() == "strings" || f.Pkg().Path() == "bytes"):
+				switch f.Name() {
+				case "ToLower", "ToLowerSpecial":
+					fold = "lower"
+				case "ToUpper", "ToUpperSpecial", "ToTitle", "Title":
+					fold = "upper"
+				case "TrimSpace", "TrimRight", "TrimLeft", "Trim", "TrimSuffix", "TrimPrefix", "TrimFunc", "TrimRightFunc", "TrimLeftFunc":
+				default:
+					return e, fold
+				}
+			default:
+				if tv, isConv := info.Types[call.Fun]; !isConv || !tv.IsType() || len(call.Args) != 1 {
+					return e, fold
+				}
+			}
+			e = ast.Unparen(flow.Resolve(info, fn.Decl.Body, ast.Unparen(call.Args[0])))
+		}
+	}
 	folded := ""
 	if sb != nil {
-		for _, cand := range pat.Stmt("_xx = strings.Split(_line, _sep)").FindAll(info, fn.Decl.Body, nil) {
-			cb := pat.Stmt("_xx = strings.Split(_line, _sep)").Match(info, cand, nil)
-			line, fold := ast.Unparen(flow.Resolve(info, fn.Decl.Body, cb["_line"].(ast.Expr))), ""
-			for {
-				call, ok := line.(*ast.CallExpr)
-				if !ok || len(call.Args) != 1 {
-					break
-				}
-				if f := core.CalleeFunc(info, call); core.IsFunc(f, "strings", "", "ToLower") {
-					fold = "lower"
-				} else if core.IsFunc(f, "strings", "", "ToUpper") {
-					fold = "upper"
-				} else if tv, isConv := info.Types[call.Fun]; !isConv || !tv.IsType() {
-					break
-				}
-				line = ast.Unparen(flow.Resolve(info, fn.Decl.Body, call.Args[0]))
+		core.Inspect(fn.Decl.Body, func(m ast.Node) bool {
+			as, ok := m.(*ast.AssignStmt)
+			if !ok || len(as.Lhs) != 1 || len(as.Rhs) != 1 {
+				return true
 			}
-			if pat.Same(info, line, sb["_x"]) {
-				xb, folded = cb, fold
+			call, ok := ast.Unparen(as.Rhs[0]).(*ast.CallExpr)
+			if !ok {
+				return true
 			}
-		}
+			f := core.CalleeFunc(info, call)
+			var sep ast.Expr
+			switch {
+			case core.IsFunc(f, "strings", "", "Split") && len(call.Args) == 2, core.IsFunc(f, "strings", "", "SplitN") && len(call.Args) == 3:
+				sep = call.Args[1]
+			case core.IsFunc(f, "strings", "", "Fields") && len(call.Args) == 1:
+			default:
+				return true
+			}
+			if line, fold := peelText(call.Args[0]); pat.Same(info, line, sb["_x"]) {
+				xb, folded = pat.Binds{"_xx": as.Lhs[0]}, fold
+				if sep != nil {
+					if sv, ok := core.StringConst(info, sep); !ok || sv != " " {
+						c.Check("R5.reply", "SendPSyncContinue/fields", dec.Pos(), false, fmt.Sprintf("the reply fields are separated by one space (found %q): run id and offset are taken from the wrong places", sv))
+					}
+				}
+			}
+			return true
+		})
 	}
 	if xb == nil {
 		c.Undecidedf("R5.reply", "SendPSyncContinue/fields", dec.Pos(), "cannot find the reply line being split into fields")
 		return
-	}
-	if s, ok := core.StringConst(info, xb["_sep"].(ast.Expr)); !ok || s != " " {
-		c.Check("R5.reply", "SendPSyncContinue/fields", dec.Pos(), false, fmt.Sprintf("the reply fields are separated by one space (found %q): run id and offset are taken from the wrong places", s))
 	}
 	field := func(e ast.Expr) int64 {
 		b := pat.Expr("_xx[_i]").Match(info, e, pat.Binds{"_xx": xb["_xx"]})
@@ -112,7 +146,7 @@ func (r *rs) psyncReply() {
 		for _, f := range flow.EdgeFacts(g, blk, 0) {
 			if kw, arg, ok := foldKw(f); ok && (kw == "continue" || kw == "fullresync") && !seen[kw] {
 				seen[kw] = true
-				if field(ast.Unparen(flow.Resolve(info, fn.Decl.Body, ast.Unparen(arg)))) == 0 {
+				if inner, _ := peelText(arg); field(inner) == 0 {
 					c.Okf("R5.reply", "SendPSyncContinue/keyword-"+kw, f.Expr.Pos(), "field 0 is compared with strings.EqualFold: every letter case matches")
 				} else {
 					c.Undecidedf("R5.reply", "SendPSyncContinue/keyword-"+kw, f.Expr.Pos(), "keyword comparison %s not recognised", c.Src(f.Expr))
@@ -133,6 +167,9 @@ func (r *rs) psyncReply() {
 				key := "SendPSyncContinue/keyword-" + kw
 				pos := side[1].Pos()
 				other := ast.Unparen(flow.Resolve(info, fn.Decl.Body, ast.Unparen(side[0])))
+				if inner, fold := peelText(other); fold == "" && field(inner) == 0 {
+					other = inner // trimming / conversions around the field do not matter
+				}
 				call, isCall := other.(*ast.CallExpr)
 				cf := (*types.Func)(nil)
 				if isCall {
@@ -177,10 +214,16 @@ func (r *rs) psyncReply() {
 		case viaF && !viaC:
 			nf++
 			// run id <- field 1, offset <- ParseInt(field 2), header read from br
-			rid := flow.Resolve(info, fn.Decl.Body, ret.Results[0])
-			if field(rid) == 1 && folded != "" {
-				c.Failf("R5.reply", "SendPSyncContinue/fullresync-runid", ret.Pos(), "the run id is field 1 of the %s-cased reply line: a run id announced with letters of the other case is altered, the source does not recognise it in the next PSYNC and answers with a full resync", folded)
-			} else {
+			// the run id returned derives from reply field 1, without any case-changing transformer on the way
+			rid, ridFold := peelText(ret.Results[0])
+			switch {
+			case field(rid) == 1 && (folded != "" || ridFold != ""):
+				how := folded + "-cased reply line"
+				if ridFold != "" {
+					how = ridFold + "-cased field"
+				}
+				c.Failf("R5.reply", "SendPSyncContinue/fullresync-runid", ret.Pos(), "the run id returned is field 1 of the %s: a run id announced with letters of the other case is altered, the source does not recognise it in the next PSYNC and answers with a full resync", how)
+			default:
 				c.Check("R5.reply", "SendPSyncContinue/fullresync-runid", ret.Pos(), field(rid) == 1, fmt.Sprintf("on FULLRESYNC the run id is reply field 1 (found %s): a wrong run id makes every later PSYNC a full resync or, worse, continues the wrong history", c.Src(rid)))
 			}
 			off := flow.Resolve(info, fn.Decl.Body, ret.Results[1])
